@@ -32,3 +32,10 @@ package config
 //@   unverified history variable: names the result of this call for the caller's contract
 //@   modifies ghost.scopeArg
 //@   ensures ghost.scopeArg == seqof(res)
+
+// C11 / C13 — localization gives the user copy its OWN one-element scope list: the copies
+// built for the other scopes (and the configuration they were copied from) are not touched.
+//@ func (u *User) LocalizeToScope(scope string)
+//@   requires u != nil
+//@   modifies u.Scopes
+//@   ensures[C11,C13] fresh(u.Scopes) && len(u.Scopes) == 1 && u.Scopes[0] == scope
